@@ -18,13 +18,18 @@ impl Clone for KString {
 pub struct RtId { _p: u8 }
 pub trait Runtime {
     spec fn ident(&self) -> RtId;
+    /// the runtime has a layer that captures assignments and one that holds the counters below or at this scope, so that
+    /// set_global / set_index never reach RuntimeCore's `unreachable!` (unit `stack`: proved unreachable exactly then;
+    /// RuntimeBuilder::build establishes it, the four scope constructors preserve it)
+    spec fn writable(&self) -> bool;
     /// current value of the counter `name` (0 if it was never set)
     spec fn counter_now(&self, name: KString) -> int;
     /// the global write the tag being rendered is entitled to
     spec fn may_set_global(&self, name: KString, val: VId) -> bool;
     fn registers(&self) -> &Registers;
     fn set_global(&self, name: KString, val: Value) -> (r: Option<Value>)
-        requires self.may_set_global(name, val.vid());                                           // [C04:only_the_named_variable_is_assigned]
+        requires self.may_set_global(name, val.vid()),                                           // [C04:only_the_named_variable_is_assigned]
+                 self.writable();                                                                 // [C02:assignments_need_a_global_layer]
     /// counters move by one per tag execution; assumed to stay within +-2^62 (2^62 executions are out of reach)
     fn get_index(&self, name: &KString) -> (r: Option<ValueCow>)
         ensures
@@ -32,5 +37,6 @@ pub trait Runtime {
             r matches Some(v) ==> (v.scalar_of() matches Some(s) && s.int_view() == Some(self.counter_now(*name) as i64)),
             r is None ==> self.counter_now(*name) == 0;
     fn set_index(&self, name: KString, val: Value) -> (r: Option<Value>)
-        requires val.num() matches Some(Num::Int(k)) && (k == self.counter_now(name) + 1 || k == self.counter_now(name) - 1);   // [C04:counter_moves_by_one]
+        requires val.num() matches Some(Num::Int(k)) && (k == self.counter_now(name) + 1 || k == self.counter_now(name) - 1),   // [C04:counter_moves_by_one]
+                 self.writable();                                                                 // [C02:counters_need_a_counter_layer]
 }
